@@ -364,7 +364,11 @@ def replay(rep, path):
             yv = value_of(y)
             g, ng = pow_eq_text(yv[1], n, x)
             cid = "replay_pp"
-            return [Instance(cid, g, [ng], kind="Z", meta={"fn": r["fn"], "call": cid})], {cid: dict(r)}
+            r2 = {k: v for k, v in r.items() if k not in ("coq_replay", "coq_file", "instance", "step")}
+            r2["n_class"] = "n>20" if n > 20 else "n<=20"
+            r2["rnd_class"] = "nearest" if r["rnd"] == "n" or r["route"] == "api_n" else "directed"
+            return [Instance(cid, g, [ng], kind="Z", meta={"fn": r["fn"], "call": cid, "part": "re",
+                                                           "clause": "exact root of a perfect power"})], {cid: r2}
         rep.violation("C13 replay: " + str(r.get("fn")), dict(r))      # table/direct failures: re-run the whole check
         return [], {}
     replay_generic(rep, path, rebuild)
